@@ -197,7 +197,7 @@ func pubNoAck(api string) []ir.Clause {
 
 // waiterForgotten: the waiter registered under the id is removed (and the receive loop released), either directly or
 // through forgetReply, whose body is checked by ruleWaiterRemoved.
-const waiterForgotten = `^call:client\.\(\*Client\)\.forgetReply\(%c, %id\)$`
+const waiterForgotten = `^(call|defer):client\.\(\*Client\)\.forgetReply\(%c, %id\)$`
 
 // ruleWaiterRemoved: waiting removes the waiter on every exit, and removing it releases a receive loop that is
 // handing over a reply to it.
